@@ -5,6 +5,9 @@ ROOT = os.path.dirname(os.path.dirname(os.path.abspath(__file__)))
 CORE, BIN, PY3, BS, EXPR, CONT = 'construct/core.py', 'construct/lib/binary.py', 'construct/lib/py3compat.py', 'construct/lib/bitstream.py', 'construct/expr.py', 'construct/lib/containers.py'
 MUTANTS = [
     # id, property, file, old, new
+    ('adapter-build-returns-encoded', 'C13', CORE, "        obj2 = self._encode(obj, context, path)\n        buildret = self.subcon._build(obj2, stream, context, path)\n        return obj", "        obj2 = self._encode(obj, context, path)\n        buildret = self.subcon._build(obj2, stream, context, path)\n        return obj2"),
+    ('adapter-build-skips-encode', 'C13', CORE, "        obj2 = self._encode(obj, context, path)\n        buildret = self.subcon._build(obj2, stream, context, path)\n        return obj", "        obj2 = self._encode(obj, context, path)\n        buildret = self.subcon._build(obj, stream, context, path)\n        return obj"),
+    ('adapter-parse-uses-encode', 'C13', CORE, "        obj = self.subcon._parsereport(stream, context, path)\n        return self._decode(obj, context, path)", "        obj = self.subcon._parsereport(stream, context, path)\n        return self._encode(obj, context, path)"),
     ('struct-sizeof-plus-one', 'C05', CORE, "            return sum(sc._sizeof(context, path) for sc in self.subcons)", "            return sum(sc._sizeof(context, path) for sc in self.subcons) + 1"),
     ('select-parse-no-seek-back', 'C09', CORE, "            except Exception:\n                stream_seek(stream, fallback, 0, path)\n            else:\n                return obj\n        raise SelectError(\"no subconstruct matched\", path=path)", "            except Exception:\n                pass\n            else:\n                return obj\n        raise SelectError(\"no subconstruct matched\", path=path)"),
     ('greedyrange-no-seek-back', 'C09', CORE, "            if fallback is None:\n                raise\n            stream_seek(stream, fallback, 0, path)\n        return obj", "            if fallback is None:\n                raise\n        return obj"),
